@@ -181,7 +181,10 @@ def canon(e, rename, depth=0, rewrite=None, pname=None):
         path = ".".join(p if isinstance(p, str) else "[%s]" % (c(p[1]) if p[0] == "idx" else p[0]) for p in e[2])
         return "(*%s).%s" % (c(e[1]), path)
     if k == "binop":
-        return "%s(%s, %s)" % (e[1], c(e[2]), c(e[3]))
+        a, b = c(e[2]), c(e[3])
+        if e[1] in ("Add", "Mul", "BitAnd", "BitOr", "BitXor", "Eq", "Ne", "AddUnchecked", "MulUnchecked") and b < a:
+            a, b = b, a  # commutative: operand order is not part of the skeleton
+        return "%s(%s, %s)" % (e[1], a, b)
     if k == "unop":
         return "%s(%s)" % (e[1], c(e[2]))
     if k in ("call", "pcall"):
@@ -189,7 +192,10 @@ def canon(e, rename, depth=0, rewrite=None, pname=None):
         name = rename(name)
         if name in ("@skip",):
             return c(e[2][0]) if e[2] else "?"
-        return "%s(%s)" % (name, ", ".join(c(a) for a in e[2]))
+        args = [c(a) for a in e[2]]
+        if k == "pcall" and name.split("::")[-1] in ("min", "max"):
+            args = sorted(args)  # symmetric
+        return "%s(%s)" % (name, ", ".join(args))
     if k == "cast" or k == "unsize":
         return c(e[2] if k == "cast" else e[1])
     if k == "field":
@@ -264,6 +270,10 @@ def events(f, rename=lambda s: s, significant=None, rewrite=None, pname=None, gu
             name = rename(short if mir.is_local_callee(t) else path)
             if name == "@skip":
                 continue
+            from . import effects as _eff0
+
+            if path in _eff0.PURE_BY_VALUE and not returned:
+                continue  # a pure function of its argument values (len, min, checked_sub, ...): rendered where it is used
             if mir.is_local_callee(t) and short in f.prog.fns:
                 from . import effects as _eff
 
